@@ -26,6 +26,7 @@ DECIDED = [
     "R-C03-UNCHANGED: no reject/finish implementation writes the message's parameters (retry counter of a returned message untouched); _prepare_* modify copies only",
     "R-C03-MAINT: Redis maintenance rejects an in-flight message only when now - taken_at > execution_timeout, and runs on connect and disconnect",
     "R-C03-SHUTDOWN (pause protocol): stopping pauses consumers that may already be paused: pause is idempotent, the pause lock is only passed through by readers, RabbitMQ lowers the flag it raised (C09's pause rules reused)",
+    "R-C03-UNCHANGED (limit exit): the message held when the message budget stops the loop is rejected and its permit released (C10's gate reused)",
 ]
 NOT_DECIDED = ["the timing bound of run() (graceful period + slack)", "interleavings of the runner's own tasks (rejects still in flight when run() returns)", "process-death semantics of the servers"]
 ASSUMPTIONS = ["asyncio: awaits are the only cancellation points", "a cancelled awaiter cancels the awaited child task"]
